@@ -177,6 +177,16 @@ PROPS.update({
         "trusted_extra": ["math/big is the reference semantics by definition of the property; the ~40 wrapper methods without a fast path are updateInner(big.op(inner ...)) - covered by C16_wrapper in the model and compared with math/big directly in the bigint stream; receiver/argument aliasing of BigInt is implemented by math/big's own overlap detection over the shared inline array and is carried by the stream only"],
     },
 })
+PROPS["C08"] = {
+    "level": "proof",
+    "lean_modules": ["ApdVerif.Props.C08"],
+    "theorem_prefixes": ["C08_"],
+    "streams": [{"stream": "specials", "n": {"quick": 20000, "thorough": 300000}},
+                {"stream": "arith", "ops": ["add", "sub"], "n": {"quick": 8000, "thorough": 100000}}],
+    "projections": ["value", "repr", "flags", "err"],
+    "oracle_tags": ["C08"],
+    "trusted_extra": [COMPOSITE_NOTE],
+}
 
 _known = None
 
